@@ -15,15 +15,31 @@ import (
 	"k8s.io/apimachinery/pkg/api/resource"
 	metav1 "k8s.io/apimachinery/pkg/apis/meta/v1"
 	"k8s.io/apimachinery/pkg/types"
+	k8sfeature "k8s.io/apiserver/pkg/util/feature"
 	"k8s.io/klog/v2"
 	fwktype "k8s.io/kube-scheduler/framework"
 	"k8s.io/kubernetes/pkg/scheduler/framework"
 
 	"github.com/koordinator-sh/koordinator/apis/extension"
 	"github.com/koordinator-sh/koordinator/apis/thirdparty/scheduler-plugins/pkg/apis/scheduling/v1alpha1"
+	koordfeatures "github.com/koordinator-sh/koordinator/pkg/features"
 	"github.com/koordinator-sh/koordinator/pkg/scheduler/apis/config"
 	"github.com/koordinator-sh/koordinator/pkg/scheduler/plugins/elasticquota/core"
+	utilfeature "github.com/koordinator-sh/koordinator/pkg/util/feature"
 )
+
+// c03GuaranteeGate switches the alpha feature gate ElasticQuotaGuaranteeUsage on for the rest of the case (the helper the
+// package's own tests use) and tells the model (`gate 1`: quota objects yield allow-lent = false).  The property does not
+// mention the gate: every oracle clause - the non-preemptible bound = the DECLARED min in particular - stays as it is.
+func c03GuaranteeGate(t *testing.T, h *vHarness, on bool) func() {
+	h.Tag(fmt.Sprintf("gate:guarantee-usage:%d", vB(on)))
+	if !on {
+		return func() {}
+	}
+	restore := utilfeature.SetFeatureGateDuringTest(t, k8sfeature.DefaultMutableFeatureGate, koordfeatures.ElasticQuotaGuaranteeUsage, true)
+	h.Op("gate 1")
+	return restore
+}
 
 // C03 harness: long generated histories against the real plugin
 //   OnQuotaAdd/OnQuotaUpdate (max/min changes, re-parenting, is-parent / allow-lent flips = tree reset),
@@ -1223,6 +1239,11 @@ func c03Case(t *testing.T, h *vHarness, idx int, steps int) {
 		return
 	}
 	defer h.End()
+	// the alpha gate ElasticQuotaGuaranteeUsage is on in a quarter of the cases (every fourth block of four = every switch
+	// combination); the case's PRNG stream does not depend on it
+	gu := (idx>>2)&3 == 3
+	h.Op("dims %d", c03D)
+	defer c03GuaranteeGate(t, h, gu)()
 	suit := newPluginTestSuit(t, nil)
 	var lvl klog.Level
 	_ = lvl.Set("0")
@@ -1243,7 +1264,6 @@ func c03Case(t *testing.T, h *vHarness, idx int, steps int) {
 	w.closedLoop = stream != "wild"
 	h.Tag("stream:" + stream)
 	h.Tag(fmt.Sprintf("switches:rt%d-cp%d", vB(w.cfgRT), vB(w.cfgCP)))
-	h.Op("dims %d", c03D)
 
 	// --- tree plan ---
 	nq := r.Range(2, 7)
